@@ -86,6 +86,8 @@ var badLiterals = []string{"", "1", "1.", ".5", "1.23456", "+1.0", "1e3", "--1.0
 	"1d1d", "1h1d", "1", "ms", "-", "1 d", "1D", "1.5s", "+1s", "9223372036854775808ms", "106751991168d",
 	"2020-13-01", "2020-02-30", "2021-02-29", "2020-1-01", "20200101", "2020-01-01T", "2020-01-01T00:00:00", "2020-01-01T24:00:00Z", "2020-01-01T00:60:00Z",
 	"2020-01-01T00:00:60Z", "2020-01-01T00:00:00.0Z", "2020-01-01T00:00:00.0000Z", "2020-01-01T00:00:00+2400", "2020-01-01T00:00:00+0060", "2020-01-01T00:00:00+00:00", "2020-01-01 00:00:00Z", "2020-01-01t00:00:00z",
+	"2024-03-00", "2024-00-10", "2024-00-00", "0000-00-00", "2024-01-32", "2024-04-31", "2024-+1-01", "2024-01-01T+1:00:00Z", "2024-01-01T00:00:00.+12Z", "2024-01-01T00:00:00.5Z", "2024-01-01T00:00:00,123Z",
+	"-0d", "+0.0", "0.-5", "1.+5", "::1.2.3.4", "1::1.2.3.4", "00.0.0.1", "1.2.3.04",
 	"256.0.0.1", "1.2.3", "1.2.3.4/33", "1.2.3.4/", "::1/129", ":::", "1.2.3.4.5", "g::1", "1.2.3.4/-1", "fe80::1%eth0"}
 
 func (g *G) extLit(fn string, v model.Val) *model.Expr {
